@@ -31,16 +31,36 @@ CHECKS = {
             "Random operation histories (put/get/close+reopen, sizes 0..3 segments, segment limit from 1 byte, syncEvery from 1) are executed against the real nsqd.DiskQueue; after every operation the I/O loop is awaited at its idle point and every delivered message, Depth() and the ready/empty state are compared with a slice model; plus concurrent producer histories checked for per-producer order and exactly-once. Held-on-N-histories, not a proof.",
             "Trusts the tag-guarded idle hook placement, tmpfs as the filesystem, and that a clean restart is Close()+NewDiskQueue in one process.",
             "DESIGN.md §4 C09"),
+    "C10": ("exploration",
+            "runtime monitoring: reference bucket model and ten re-implemented functions against a real aggregator on harness clock and tick channel, black-box serialised histories, under -race",
+            "Each generated history is one deterministic interleaving (every point and tick is followed by a barrier through the aggregator's own goroutine). After every tick the emitted lines are compared with the reference model: each due (name, bucket) emitted exactly once at the first tick with tick-wait >= bucket start, timestamp = bucket start, buckets ascending, value within 1e-6*max(1,|ref|) of the function over exactly the contributed points in six-decimal rendering, six .pNN lines for percentiles; points for closed buckets must move what=TooOld and emit nothing; nothing is emitted without a tick. All ten functions, five regex/format shapes, cache on/off, boundary, late and out-of-order timestamps. Held on the histories generated.",
+            "Late-but-unflushed points: any subset of those counted TooOld is accepted, those not counted must contribute; stdev is the population form; derive ties accept any tied value; clock and tick values non-decreasing; no concurrent producers inside one aggregator (race detector only).",
+            "DESIGN.md §4 C10"),
+    "C11": ("exploration",
+            "runtime monitoring: documented pipeline model composed with the C10 bucket model against a real Table plus 2-4 real aggregators on a mocked clock and capture routes; counter-delta identities; under -race",
+            "Per generated table: after each raw round every rule's direction=in counter must equal the model's complete-filter matches not withheld by an earlier drop-raw rule and every capture route must hold exactly the raw lines the model sends there; after each tick round every aggregate must arrive at exactly the routes whose filter accepts its name, un-rewritten, with the model value; invalid / out_of_order / blacklist counters must not move, no rule's in-counter may move (no feedback), direction=out must equal the model (no amplification); a final tick-only round must add nothing. Tables are regenerated until they offer self-matching or chained outputs, blacklist/rewriter hits on aggregate names, drop-raw hits and near-misses.",
+            "Filter semantics evaluated with stdlib regexp/strings on the name (the relay's matcher is C03); 'cannot loop' is shown as no feedback and no amplification over the tick rounds run, not as an unbounded claim; a real feedback deadlock surfaces as inconclusive (barrier watchdog).",
+            "DESIGN.md §4 C11"),
     "C14": ("exploration",
             "runtime monitoring of the real relay binary (-race) as a child process: exit status + output scan + liveness probe after every hostile batch; every batch logged before it is sent",
             "The real binary is started on generated TOML configurations (documented options with boundary values); once listening it receives batches of hostile bytes on the plain TCP, UDP and pickle ports, boundary / mutated / random admin commands on the TCP admin port and HTTP admin DELETEs, each followed by valid traffic exercising what was built and a `view` probe; any exit, Go panic or fatal error after the listeners are up (or a Go panic at start-up) is a violation whose witness is the configuration and the last batches. AMQP bodies go through the real consume loop in an in-process child. A universal negative: the evidence lists what was tried.",
             "Exit before listening with an error message = configuration rejected (allowed); buffer sizes kept below what the machine can allocate; no AMQP/Kafka/PubSub services here.",
             "DESIGN.md §4 C14"),
+    "C15": ("exploration",
+            "runtime monitoring: reference ring (cross-checked against a CPython transcription of carbon's ConsistentHashRing) compared with real consistentHashing routes through per-destination hand-off counters",
+            "For generated destination sets of 2-12 (host, instance) pairs, in every listing order up to 4 destinations and several above, and along add/remove sequences, every sampled name (incl. names on tied 16-bit positions, on entry boundaries, on wrap-around) was handed to exactly one destination, the one carbon 0.9's ring picks; ownership did not depend on listing order; only keys landing on the added destination, or owned by the removed one, moved. Sampled, not exhaustive.",
+            "The Go reference ring is trusted as cross-checked each run against a CPython 3 transcription with emulated Python 2 None ordering; hosts are 127.x literals; destinations are permanently disconnected (spool=false) so hand-off counters are the observation; a white-box accessor adds volume but the counter path is verdict-bearing on its own.",
+            "DESIGN.md §4 C15"),
     "C18": ("exploration",
             "runtime monitoring: snapshot-immutability invariant at white-box accessor, forced interleavings via tag-guarded after-load hooks with exact delivery counts, free-running dispatch x admin ops under the race detector (reports scoped to mutator-vs-dispatch), sequential model of the table view",
             "A: slices loaded from the table/route snapshot are compared element-wise after every delete (all list lengths 1..6 x indexes, five list kinds, add/delete histories). B: a dispatcher is held right after loading the snapshot while the delete happens, then released: every entry that exists before and after must see the line exactly once (capture routes, non-idempotent rewriters, counting aggregators, real destinations, real route deleted); a dispatcher that never returns is confirmed with two stack samples. C: 8 dispatchers x random admin operations: stable routes/destinations must get every line exactly once; race reports with one side in a mutator and the other in a dispatch path count. E: Table.Snapshot() vs model after each operation of random histories (index >= len rejected, unknown route no-op).",
             "Capture routes stand for routes at table level; refusing-port destinations make each hand-off visible once in a counter; forced interleavings cover the after-load point only.",
             "DESIGN.md §4 C18"),
+    "C19": ("exploration",
+            "recorded-history linearizability checking (porcupine v1.3.0, max-register model, partitioned by name) + counter and bad-metrics identities + race detector",
+            "Concurrent histories of 1-8 dispatchers on validate_order tables with colliding timestamps: every per-name history (call/return stamps from one atomic counter, result = the unique line reached the capture route) must be linearizable against accept <=> strictly newer, incl. dotted/undotted spellings of one name and timestamps up to 2^32-1; out_of_order must count exactly the rejects; every reject must be reported by Table.Bad() and forwarded nowhere; sequential sub-histories must never reject a newer point; race reports inside validate.Ordered count.",
+            "Schedules are whatever the Go scheduler produced under -race (validate has no hook); porcupine timeout = inconclusive; FNV-64 key collisions out of reach; bad metrics checked as last record per name.",
+            "DESIGN.md §4 C19"),
 }
 
 NOT_APPLICABLE = {
